@@ -18,6 +18,17 @@ type Val interface{}
 
 type Tuple []Val
 
+// OneSided: a source variable that is in scope on only some of the merged paths (cond tells when its value is tv).
+type OneSided struct {
+	cond string
+	tv   TV
+}
+
+func (r *Run) materialize(o *OneSided) TV {
+	other := r.declare("oos", o.tv.Sort)
+	return TV{r.define("m", o.tv.Sort, ite(o.cond, o.tv.S, other)), o.tv.Sort, o.tv.T}
+}
+
 type Closure struct {
 	fn    *ssa.Function
 	binds []Val
@@ -700,14 +711,26 @@ func (r *Run) merge2(a, b *State) *State {
 		va := a.vars[k]
 		vb, ok := b.vars[k]
 		if !ok {
-			// the variable is not in scope on the other path: there its value is irrelevant (arbitrary)
-			if tv, isTV := va.(TV); isTV && tv.T != nil && !strings.HasPrefix(k, "undef:") {
-				other := r.declare("oos_"+k, tv.Sort)
-				out.vars[k] = TV{r.define("m", tv.Sort, ite(c, tv.S, other)), tv.Sort, tv.T}
-			} else {
-				delete(out.vars, k)
+			// the variable is not in scope on the other path: there its value is irrelevant. Kept lazily (a constant for the
+			// other side is only introduced if a contract actually mentions the variable).
+			switch x := va.(type) {
+			case TV:
+				if x.T != nil && !strings.HasPrefix(k, "undef:") {
+					out.vars[k] = &OneSided{cond: c, tv: x}
+					continue
+				}
+			case *OneSided:
+				out.vars[k] = &OneSided{cond: and(c, x.cond), tv: x.tv}
+				continue
 			}
+			delete(out.vars, k)
 			continue
+		}
+		if oa, isO := va.(*OneSided); isO {
+			va = r.materialize(oa)
+		}
+		if ob, isO := vb.(*OneSided); isO {
+			vb = r.materialize(ob)
 		}
 		if m, ok := r.mergeVal(c, va, vb); ok {
 			out.vars[k] = m
@@ -719,9 +742,13 @@ func (r *Run) merge2(a, b *State) *State {
 		if _, inA := a.vars[k]; inA {
 			continue
 		}
-		if tv, isTV := b.vars[k].(TV); isTV && tv.T != nil && !strings.HasPrefix(k, "undef:") {
-			other := r.declare("oos_"+k, tv.Sort)
-			out.vars[k] = TV{r.define("m", tv.Sort, ite(c, other, tv.S)), tv.Sort, tv.T}
+		switch x := b.vars[k].(type) {
+		case TV:
+			if x.T != nil && !strings.HasPrefix(k, "undef:") {
+				out.vars[k] = &OneSided{cond: not(c), tv: x}
+			}
+		case *OneSided:
+			out.vars[k] = &OneSided{cond: and(not(c), x.cond), tv: x.tv}
 		}
 	}
 	names := map[string]bool{}
